@@ -76,6 +76,44 @@ func init() {
 				}
 			}
 		}
+		// and after a reconfiguration through the receive loop: a longer configuration with the same data type in another
+		// format at its end, then the one under test alone - the header must carry the newest identifier
+		for _, t := range supportedTypes {
+			for k := 0; k < 3; k++ {
+				id := xsens.DataIdentifier{DataType: t, CoordinateSystem: xsens.CoordinateSystem(4 * c.rng.Intn(3)), Precision: xsens.Precision(c.rng.Intn(4))}
+				other := id
+				other.Precision = (id.Precision + 1 + xsens.Precision(c.rng.Intn(3))) % 4
+				other.CoordinateSystem = (id.CoordinateSystem + 4) % 12
+				md := zeroValue(t)
+				if md == nil {
+					continue
+				}
+				first := xsens.OutputConfiguration{{DataIdentifier: xsens.DataIdentifier{DataType: xsens.DataTypePacketCounter}, OutputFrequency: 100},
+					{DataIdentifier: other, OutputFrequency: 100}}
+				if t == xsens.DataTypePacketCounter {
+					first[0].DataType = xsens.DataTypeSampleTimeFine
+				}
+				var pkt []byte
+				protect(func() {
+					pkt, _ = emuMarshalAfter([]xsens.OutputConfiguration{first, {{DataIdentifier: id, OutputFrequency: 100}}}, md, t)
+				})
+				if len(pkt) < 2 {
+					pkt = []byte{0, 0}
+				}
+				v := int(id.Uint16())
+				dec := xsens.DataIdentifier{DataType: 0xffff, CoordinateSystem: 0xff, Precision: 0xff}
+				dec.SetUint16(uint16(v))
+				pid := xsens.MTData2Packet(pkt).Identifier()
+				c.emit("id16", tup(zs(int64(v)),
+					tup(zs(int64(dec.DataType)), zs(int64(dec.CoordinateSystem)), zs(int64(dec.Precision))),
+					zs(int64(dec.Uint16())),
+					tup(zs(int64(pid.DataType)), zs(int64(pid.CoordinateSystem)), zs(int64(pid.Precision))),
+					nlist(pkt[:2])))
+				c.count("emulator-headers-after-reconfiguration")
+			}
+		}
+		// identifiers read by concurrent encodes while the configuration is replaced: never a torn one
+		c.mixCases(c.pick(150, 1500), []int{4, 16})
 		c.count("wire-values-enumerated")
 		c.notes = append(c.notes, "exhaustive: all 65536 wire values")
 	}
